@@ -41,8 +41,17 @@ def gen_mix(rng: random.Random, tier):
     pubs = [f"p{i}" for i in range(npub)]
     subs = [f"s{i}" for i in range(nsub)]
     for i, L in enumerate(pubs + subs):
-        steps += [["open", L], ["hello", L, {"mod_id": 10 + i, "logger": int(L == "s0" and rng.random() < 0.4),
-                                              "v2": rng.random() < 0.8}]]
+        hello = ["hello", L, {"mod_id": 10 + i, "logger": int(L == "s0" and rng.random() < 0.4), "v2": rng.random() < 0.8}]
+        if L in subs and L != "s0" and rng.random() < 0.2:
+            # a peer that subscribes and receives before it completes its handshake (the manager serves any accepted
+            # socket): the numbering of its connection must simply continue through the handshake
+            t0 = rng.choice(types)
+            steps += [["open", L], ["drain"], ["sub", L, t0], ["drain"]]
+            for _ in range(rng.randint(1, 3)):
+                steps.append(["pub", pubs[0], t0, 0, 0, rng.choice([0, 8, 200])])
+            steps += [["drain"], hello]
+        else:
+            steps += [["open", L], hello]
     steps.append(["drain"])
     for L in subs:
         if rng.random() < 0.35:
